@@ -396,8 +396,21 @@ def g12(ctx):
             for x in ir.get(k, []):
                 walk_raw(x, look, tokdef, f, lex)
 
+    def token_definition(f):
+        """a function that IS a token definition written in bind form: every step is a raw lexer and the result is built from into_locate of what
+        the steps returned (`let (s, x) = tag(".")(s)?; Ok((s, Symbol { nodes: (into_locate(x), vec![]) }))`)"""
+        if not f.tail or f.tail[0] != 'ok' or not isinstance(f.tail[2], dict):
+            return False
+        binds_ = [st_ for st_ in f.stmts if st_[0] == 'bind']
+        if not binds_ or len(binds_) != len(f.stmts):
+            return False
+        if not all(st_[3].get('op') in ('prim', 'lit') for st_ in binds_):
+            return False
+        bound_ = {x_ for st_ in binds_ for x_ in sx.pat_idents(st_[2]) if x_}
+        locs_ = [n_ for n_ in sx.walk(f.tail[2]) if sx.is_call(n_, 'into_locate') and len(n_['args']) == 1 and sx.is_path(n_['args'][0]) and n_['args'][0]['p'] in bound_]
+        return len(locs_) == len(bound_)
     for f in g.parsers():
-        walk_raw(f.ir, False, False, f, lexeme_fn(f))
+        walk_raw(f.ir, False, token_definition(f), f, lexeme_fn(f))
     # (ii) trivia-less junctions: a step that ends in a token without trailing trivia, followed by another step
     ends = {f.name: False for f in g.parsers()}
 
